@@ -795,7 +795,9 @@ pub fn run_c08(tier: Tier) -> i32 {
         if want - sp > 1100 && !p.legal().iter().any(|m| m.promo != 0) {
             qs_big.fetch_add(1, Ordering::Relaxed);
         }
-        if want != sp || qs_n.load(Ordering::Relaxed) % 10 == 0 {
+        // (thorough runs have 10^8 positions here: a quarter of those where captures decide)
+        let turn = qs_n.load(Ordering::Relaxed);
+        if (want != sp && (tier == Tier::Quick || turn % 4 == 0 || want - sp > 1000)) || turn % 10 == 0 {
             for (alpha, beta) in [(want - 1, want + 1), (sp - 1, sp + 1), (want - 1, i32::MAX / 2)] {
                 qs_windows.fetch_add(1, Ordering::Relaxed);
                 match quiescence_window(p, alpha, beta) {
